@@ -591,6 +591,11 @@ fn build_tera() -> Tera {
     t.register_filter("urlencode_strict", tera_contrib::urlencode::urlencode_strict);
     t.register_filter("json_encode", tera_contrib::json::json_encode);
     t.register_filter("slug", tera_contrib::slug::slug);
+    // a host filter that applies a codec by name through State::call_filter
+    t.register_filter("via", |v: tera::Value, k: tera::Kwargs, st: &tera::State| -> tera::TeraResult<tera::Value> {
+        let name = k.must_get::<String>("f")?;
+        st.call_filter(&name, &v, tera::Kwargs::default())
+    });
     let mut tpls: Vec<(String, String)> = vec![];
     for u in [false, true] {
         for p in [false, true] {
@@ -629,6 +634,12 @@ fn build_tera() -> Tera {
         // the codecs as filter sections inside a set block, over a body that comes from an INCLUDE
         // (two captures open at the include; seeded change C20-12 = C05-10 wrote the included text
         // into the outermost one, so the codec encoded nothing)
+        // the codecs applied by a host filter through State::call_filter, in a template included two
+        // levels deep (seeded change C20-14 = C16-14 found the registered filters one include level
+        // above the callback only)
+        ("via/d0", "{{ s | via(f=\"urlencode_strict\") }}|{{ s | via(f=\"b64_encode\") }}|{{ s | via(f=\"json_encode\") }}"),
+        ("via/d1", "{% include \"via/d0\" %}"),
+        ("via/d2", "{% include \"via/d1\" %}"),
         ("payload", "{{ s }}"),
         (
             "nested/set-filter-include",
@@ -779,6 +790,17 @@ fn judge_string(tera: &Tera, s: &str, acc: &mut Acc, sample: bool) {
             );
         }
         acc.case(nonempty, "filter-section-in-set-block-over-include:compared");
+        for name in ["via/d0", "via/d2"] {
+            let v = engine::render(tera, name, &ctx);
+            if v != b {
+                acc.violation(
+                    "host-filter-call_filter-differs-from-expression",
+                    format!("the codecs applied by a host filter through State::call_filter ({name}: include depth {}) give {}, `{src_ctx}` gives {}", if name == "via/d0" { 0 } else { 2 }, v.show(), b.show()),
+                    || json!({"template": name, "s": s}),
+                );
+            }
+            acc.case(nonempty, "host-filter-call_filter:compared");
+        }
         let as_text = !s.contains("{{") && !s.contains("{%") && !s.contains("{#") && !s.ends_with('{');
         if as_text {
             let src_text = sect(s);
